@@ -1,6 +1,26 @@
 from replay.common import pysam_mk, result
 from spec import c09 as S
 
+_TMP = []
+
+
+def real_ref(base, window):
+    """A real indexed FASTA read through pysam.FastaFile when the coordinates allow a file of reasonable size."""
+    import os, tempfile, pysam
+    if base < -7 or base > 2_000_000 or any(ch not in 'ACGTNacgtn' for ch in window):
+        return S.WindowFasta(base, window)
+    d = tempfile.mkdtemp(prefix='c09ref_', dir=os.environ.get('VERIF_SCRATCH') or None)
+    _TMP.append(d)
+    fa = os.path.join(d, 'ref.fa')
+    seq = ('A' * base + window if base >= 0 else window[-base:]) + 'A' * 32
+    with open(fa, 'w') as h:
+        h.write('>%s\n' % S.CONTIG)
+        for i in range(0, len(seq), 60):
+            h.write(seq[i:i + 60] + '\n')
+    pysam.faidx(fa)
+    return pysam.FastaFile(fa)
+
+
 _MAP = {
     'L1_nla_site': lambda a: S.check_nla(pysam_mk, a['X'], a['c'], a['rev'], a['motif'], a['inv'], a['chk'], a['nocig']),
     'L1_nla_site_paired': lambda a: S.check_nla(pysam_mk, a['X'], a['c'], a['rev'], a['motif'], False, True, False, with_r2=True),
@@ -8,6 +28,7 @@ _MAP = {
     'L2_cycle_shift_reject': lambda a: S.check_nla_shift_reject(pysam_mk, a['X'], a['rev'], a['tail']),
     'L3_chic_site_mirror': lambda a: S.check_chic(pysam_mk, a['P'], a['c'], a['rev'], a['trimmed'], a['inv'], a['Lam']),
     'L3_chic_orientation': lambda a: S.check_chic_orientation(pysam_mk, a['P'], a['rev'], a['r2rev'], a['r2unmapped']),
+    'L5_no_overhang': lambda a: S.check_nla_no_overhang(pysam_mk, real_ref, a['S'], a['rev'], a['window']),
     'L4_nla_mirror': lambda a: S.check_nla_mirror(pysam_mk, a['X'], a['c'], a['rev'], a['Lam']),
 }
 
@@ -15,4 +36,7 @@ _MAP = {
 def replay(args, outdir):
     cex = args['cex']
     clause = _MAP[args['lemma']](cex)
+    import shutil
+    for d in _TMP:
+        shutil.rmtree(d, ignore_errors=True)
     return result(clause, args['lemma'], 'input=%r' % (cex,))
